@@ -2,12 +2,15 @@
 """tools/seedregress.py [ids…]: regression test of the machinery itself — apply every confirmed seeded
 change (seeded/<id>/patch.diff) to the repository given by VERIF_REPO (a scratch copy; default /repo),
 run that property's quick check, expect exit 1 with a VIOLATION line, undo the change.  Prints one line
-per seed and a summary; exit 0 iff every seed is detected and the tree is clean again."""
+per seed and a summary; exit 0 iff every seed is detected and the tree is clean again.
+With SEEDREGRESS_REPLAY=1: when the check names a concrete failing input, run `./check Cxx --replay <file>` on the
+mutated tree as well and expect the same verdict WITH a concrete input again (`replay-ok` / `REPLAY-LOST`), then on
+the restored tree and expect exit 0 (`clean-ok` / `CLEAN-ALARM`)."""
 import glob, json, os, subprocess, sys
 R = os.path.dirname(os.path.dirname(os.path.abspath(__file__)))
 repo = os.environ.get("VERIF_REPO", "/repo")
 ids = sys.argv[1:] or sorted(os.path.basename(os.path.dirname(p)) for p in glob.glob(f"{R}/seeded/*/meta.json"))
-bad = 0
+bad = lost = 0
 for sid in ids:
     d = f"{R}/seeded/{sid}"
     prop = json.load(open(f"{d}/meta.json"))["property"]
@@ -17,10 +20,27 @@ for sid in ids:
         p = subprocess.run(["./check", prop, "--tier", "quick"], cwd=R, stdout=subprocess.PIPE, stderr=subprocess.DEVNULL, text=True)
         line = [l for l in p.stdout.splitlines() if l.startswith(("VIOLATION", "OK"))]
         ok = p.returncode == 1 and line and line[-1].startswith("VIOLATION")
-        print(f"{sid}: {'detected' if ok else 'MISSED'}  {line[-1] if line else p.stdout[-200:]}")
+        print(f"{sid}: {'detected' if ok else 'MISSED'}  {line[-1] if line else p.stdout[-200:]}", flush=True)
         bad += 0 if ok else 1
+        rp = None
+        if ok and os.environ.get("SEEDREGRESS_REPLAY") and "no-failing-input-found" not in line[-1]:
+            import shutil
+            rp = f"{R}/.build/replaytest-{sid}.txt"
+            shutil.copy(line[-1].split("replay=")[1].split()[0], rp)
+            q = subprocess.run(["./check", prop, "--replay", rp], cwd=R, stdout=subprocess.PIPE, stderr=subprocess.DEVNULL, text=True)
+            l2 = [l for l in q.stdout.splitlines() if l.startswith(("VIOLATION", "OK"))]
+            good = q.returncode == 1 and l2 and l2[-1].startswith("VIOLATION") and "no-failing-input-found" not in l2[-1]
+            print(f"{sid}:   {'replay-ok' if good else 'REPLAY-LOST'}  {l2[-1] if l2 else q.stdout[-200:]}", flush=True)
+            lost += 0 if good else 1
     finally:
         subprocess.run(["git", "-C", repo, "checkout", "--", "."])
-print(f"{len(ids) - bad}/{len(ids)} seeded changes detected")
+    if rp:
+        q = subprocess.run(["./check", prop, "--replay", rp], cwd=R, stdout=subprocess.PIPE, stderr=subprocess.DEVNULL, text=True)
+        l2 = [l for l in q.stdout.splitlines() if l.startswith(("VIOLATION", "OK"))]
+        good = q.returncode == 0 and l2 and l2[-1].startswith("OK")
+        print(f"{sid}:   {'clean-ok' if good else 'CLEAN-ALARM'}  {l2[-1] if l2 else q.stdout[-200:]}", flush=True)
+        lost += 0 if good else 1
+        os.remove(rp)
+print(f"{len(ids) - bad}/{len(ids)} seeded changes detected" + (f"; {lost} replay problems" if os.environ.get("SEEDREGRESS_REPLAY") else ""))
 subprocess.run(["git", "-C", R, "checkout", "--", "evidence/"])
-sys.exit(1 if bad else 0)
+sys.exit(1 if bad or lost else 0)
